@@ -1,6 +1,7 @@
 package props
 
 import (
+	"go/token"
 	"os"
 	"sort"
 	"strings"
@@ -429,11 +430,35 @@ func (c *Ctx) errorsNotDropped(rule string, f *ssa.Function) int {
 		if errv == nil {
 			continue
 		}
-		// the edges taken when the error is nil
+		// the edges taken when the error is nil (the error itself, or its reload from the cell a named result
+		// lives in when a deferred closure captures it)
+		sameErr := func(x ssa.Value) bool {
+			if x == errv {
+				return true
+			}
+			ld, ok := x.(*ssa.UnOp)
+			if !ok || ld.Op != token.MUL {
+				return false
+			}
+			cell, ok := ld.X.(*ssa.Alloc)
+			if !ok {
+				return false
+			}
+			var last ssa.Value
+			for _, in := range ld.Block().Instrs {
+				if in == ssa.Instruction(ld) {
+					break
+				}
+				if st, ok := in.(*ssa.Store); ok && st.Addr == ssa.Value(cell) {
+					last = st.Val
+				}
+			}
+			return last == errv
+		}
 		cut := map[an.Edge]bool{}
 		for _, i := range an.Ifs(f) {
 			cd, ok := an.Classify(i)
-			if ok && cd.Kind == "nil" && cd.X == errv {
+			if ok && cd.Kind == "nil" && sameErr(cd.X) {
 				cut[cd.EdgeWhen(true)] = true
 			}
 		}
